@@ -71,7 +71,11 @@ CLAIMS = {
     note='Trusted: CrossHair/z3 path exhaustion. PythonTask encode/decode is driven '
          'with a symbolic argument shape (positional / keyword / both / none) through '
          'the real dill + base64 transport (concrete there); every TaskDescription '
-         'attribute keeps its value through verify() (h_td_values).  Outside the '
+         'attribute keeps its value through verify() (h_td_values: list / dict '
+         'valued ones; h_td_scalars: 20 explicitly set scalar values incl. both '
+         'truth values of use_mpi x rank counts x modes); closures of one factory '
+         'encoded one after the other decode to their own function '
+         '(h_pytask_sequence).  Outside the '
          'claim: gpu_processes only with a concrete value (float '
          'of a symbolic int is inconclusive); new->old->new composition (the old form '
          'produced by convert_slots_to_old is not an input form of '
@@ -106,7 +110,8 @@ CLAIMS = {
          'ranks_per_node, colocate tag with symbolic tag history, exclusive flag, '
          'scattered mode, iteration offset): every granted placement is compared '
          'with the request; client side NodeList.find_slots/_assert_rr returns '
-         'exactly n slots of the requested shape or nothing.',
+         'exactly n slots of the requested shape or nothing; Node.find_slot hands out '
+         'cores and GPUs at the requested, independent shares.',
     note='Trusted: CrossHair/z3 path exhaustion. Bounds: 2 nodes x 2 cores x 1 GPU '
          '(schedule_task), 1 node x 2 cores x 3 GPUs (_find_resources), ranks <= 3; '
          'partition ids (PRTE) not exercised; ContinuousJsrun/Hombre outside.',
@@ -186,7 +191,10 @@ CLAIMS = {
          'that pilot after it was added, unnamed -> a currently added pilot, waiting '
          'otherwise, round-robin spread <= 1, backfilling window / high-water mark / '
          'usage returning to zero (also for tasks bound early to a named pilot and for '
-         'assigned cores exactly at the high-water mark).',
+         'assigned cores exactly at the high-water mark); pilot eligibility is judged '
+         'against the furthest state reported on any channel (state notifications '
+         'before / after an add_pilots command carrying a possibly stale snapshot, '
+         're-added pilots); tasks reporting AGENT_EXECUTING still occupy their pilot.',
     note='Trusted: CrossHair/z3 path exhaustion; session sandbox getters stubbed, locks '
          'no-op. Bounds: 2 pilots, <= 3 tasks per batch, 3 events (thorough 4), tasks of '
          '2 cores, pilots of 1..8 cores (concrete table: hwm uses float arithmetic).',
@@ -201,7 +209,8 @@ CLAIMS = {
          'quiescence under a hop budget; a second harness runs the real Agent/'
          'ClientComponent.advance -> publish and injects the produced message; a third '
          'delivers flagged messages while a forwarder is half wired (subscriber live, '
-         'publisher not yet).',
+         'publisher not yet); a fourth publishes the typed messages of messages.py '
+         '(RPC request / result, component start) through the real msgpack encoder.',
     note='Trusted: CrossHair/z3 path exhaustion; ZMQ pubsub modelled as exactly-once '
          'delivery per subscriber; proxy.py (the bridge processes themselves) and task '
          'queues are outside.',
@@ -236,7 +245,7 @@ CLAIMS = {
     text='Bounded symbolic execution of the real resource manager initialisation '
          '(ResourceManager._init_from_scratch, _filter_nodes, _parse_nodefile, '
          '_get_cores_per_node, _get_node_list and Slurm / LSF / Torque / Cobalt / '
-         'Fork.init_from_scratch): node list expression or node file lines (repeated '
+         'Fork / PBSPro.init_from_scratch): node list expression or node file lines (repeated '
          'host lines, login/batch pseudo nodes), cores/GPUs per node, SMT factor, '
          'requested and backup nodes, agent layout and blocked core/GPU sets are solver '
          'variables; the resulting RMInfo is checked (one entry per distinct usable '
@@ -246,8 +255,10 @@ CLAIMS = {
          'round trip).',
     note='Trusted: CrossHair/z3 path exhaustion; environment, node files, ssh probes '
          'faked (all backup nodes reachable); ru.get_hostlist real. Bounds: <= 4 hosts, '
-         '<= 5 node file lines, <= 4 cores, <= 2 GPUs per node. PBSPro (qstat), CCM '
-         '(directory scan), Yarn and Debug RMs are outside the bound.',
+         '<= 5 node file lines, <= 4 cores, <= 2 GPUs per node. PBSPro is driven '
+         'through a generated `qstat -f` text (8 chunk layouts, folded output, '
+         'node file fallback).  CCM (directory scan), Yarn and Debug RMs are outside '
+         'the bound.',
     design='4/C18'),
  'C20': dict(
     text='Bounded symbolic execution of the real raptor code: (W1) one '
@@ -263,7 +274,11 @@ CLAIMS = {
          'modify os.environ: exit code 0 iff success, value/output/exception reported, '
          'environment and stdio restored; (X2) the whole chain _alloc -> _dispatch / '
          '_worker_proc -> result queue -> _result_cb -> Master._result_cb for 7 kinds '
-         'of request incl. failures raised out of the dispatcher.',
+         'of request incl. failures raised out of the dispatcher; (M2) Master._run_task '
+         '(task service): the requester gets its request back whether the result '
+         'arrives during submit_tasks or later; (M3) the agent scheduler relays '
+         'function-like requests to a raptor queue exactly once for every order of '
+         '<= 3 (thorough 4) arrivals and queue registrations.',
     note='Trusted: CrossHair/z3 path exhaustion; multiprocessing.Process faked; '
          'demands within the worker size; _dispatch_proc/_dispatch_shell (real '
          'sub-processes), MPI workers and request time-outs are outside.',
@@ -278,7 +293,8 @@ CLAIMS = {
          'host/rank/node file it references (in-memory), which must equal the placement; '
          'commands are generated on a fresh instance and after another task (history '
          'independence); can_launch / ResourceManager.find_launcher must refuse what a '
-         'method cannot place; 41..44 ranks cross the literal host-list thresholds.',
+         'method cannot place - also after a launcher was selected for another task; '
+         '41..44 ranks cross the literal host-list thresholds.',
     note="Trusted: CrossHair/z3 path exhaustion; the readers encode the launchers' "
          'documented option syntax (ibrun: task offset = position of the first used core '
          'in allocation order); 43..45 distinct nodes cross the srun host-file '
@@ -286,7 +302,9 @@ CLAIMS = {
          'claim.',
     design='4/C09'),
  'C10': dict(
-    text='Bounded symbolic execution of the real script construction code: (Q1) '
+    text='Bounded symbolic execution of the real script construction code (the exec '
+         'script is the text the real _create_exec_script writes, captured at '
+         'os.write; incl. the start-up notification line): (Q1) '
          'argument strings over a 10-character alphabet (space, quotes, backslash, glob '
          'characters, non-ASCII, empty string) up to length 3 (thorough 4) are quoted by '
          'LaunchMethod.get_exec/_create_arg_string/ru.sh_quote and read back by a POSIX '
@@ -314,8 +332,12 @@ CLAIMS = {
          'staging_output and StagingHelper.handle_staging_directive; no output '
          'operation for a failed task without stage_on_error; a failing operation '
          'fails its task only; the local back end (copy/link/move on an in-memory file '
-         'system) fails on a missing source; the Session sandbox getters are stable '
-         'under any order of look-ups.',
+         'system) fails on a missing source, and on a content-bearing in-memory file '
+         'system (contents, mtimes, directories; cp flags by their documented '
+         'semantics) the named target holds the content of the named source, also '
+         'for directory targets written with a trailing slash and for two stagings to '
+         'one target; the Session sandbox getters are stable under any order of '
+         'look-ups.',
     note='Partial: the Python side only - bytes on disk, cp -r / SAGA semantics are '
          'outside (recorder / in-memory file system).  Known finding (TARBALL '
          'directives are never unpacked on the agent) is excluded by region and '
@@ -332,7 +354,10 @@ CLAIMS = {
          'agent/tmgr output staging (final state == target state, FAILED if staging '
          'raised), TaskManager._update_tasks/Task._update (the published final state is '
          'what the application sees), CANCELED only after a cancel request (C04/C07), '
-         'no task is left behind by the executor on any explored schedule.',
+         'no task is left behind by the executor on any explored schedule nor by the '
+         'agent scheduler (one intake of 1..3 tasks of mixed priorities on an idle or '
+         'full pilot: each is started, waiting, failed or canceled, and all are '
+         'started once the pilot drains).',
     note='The liveness half ("every task reaches exactly one final state as long as '
          'its pilot is alive") over ten OS processes and arbitrary ZMQ delivery orders '
          'cannot be encoded and is NOT claimed; the lemmas compose under the base-class '
